@@ -318,6 +318,18 @@ func LockedUUID(uuid dvid.UUID) (bool, error) {
 	return manager.lockedUUID(uuid)
 }
 
+// AdmitMutation registers a request that is going to change data of the node with the
+// given UUID and reports whether that node is locked (committed).  The returned function
+// must be called when the request has been handled.  Commit waits for every admitted
+// request before it locks the node, so a request that was admitted while the node was
+// open cannot change the node after the commit has been acknowledged.
+func AdmitMutation(uuid dvid.UUID) (done func(), locked bool, err error) {
+	if manager == nil {
+		return nil, false, ErrManagerNotInitialized
+	}
+	return manager.admitMutation(uuid)
+}
+
 // LockedVersion returns true if a given version is locked.
 func LockedVersion(v dvid.VersionID) (bool, error) {
 	if manager == nil {
